@@ -45,6 +45,9 @@ const (
 	sigMultiRet  = "D-C12-multiple-returns"
 	sigGoValue   = "D-C12-go-value-arg-empty-rom"
 	sigShLinks   = "D-C12-shared-links-map-order"
+	sigLeak      = "D-C12-declaration-outlives-case-or-for-clause"
+	sigDefIgn    = "D-C12-define-of-existing-name-dropped"
+	sigEndJump   = "D-C12-jump-past-last-rom-address"
 	sigSemantics = "semantics-differ"
 )
 
@@ -58,7 +61,8 @@ var openFindings = map[string]bool{
 	sigHoist:    true,
 	sigJe:       true,
 	sigMultiRet: true,
-	sigGoValue:  true,
+	sigLeak:     true,
+	sigDefIgn:   true,
 }
 
 func isOpen(sig string) bool {
@@ -280,7 +284,16 @@ func prop(c Case) pbt.Outcome {
 		if base.Status == "crash" && len(facts.UnsupportedOps) == 0 && len(facts.MultiReturn) == 0 {
 			// a clean "Error:" rejection is always an acceptable answer; a Go runtime panic of the compiler
 			// on a program made only of constructs it implements is not
-			return finish(pbt.Outcome{Fail: pbt.Failf("compiler-panic", "bondgo panics (exit %d) on a program that uses only constructs it implements\n--- source\n%s--- stderr\n%s", base.Exit, c.Src, dumpHead(base.Stderr))})
+			f := pbt.Failf("compiler-panic", "bondgo panics (exit %d) on a program that uses only constructs it implements\n--- source\n%s--- stderr\n%s", base.Exit, c.Src, dumpHead(base.Stderr))
+			if len(facts.DefineIgnored) > 0 {
+				// the dropped := leaves a typeless cell behind; with a RAM-class name the allocator panics on it
+				f.Sig = sigDefIgn
+				if c.Strict || !isOpen(sigDefIgn) {
+					return finish(pbt.Outcome{Fail: f})
+				}
+				return finish(pbt.Outcome{Excluded: sigDefIgn})
+			}
+			return finish(pbt.Outcome{Fail: f})
 		}
 		if os.Getenv("VERIF_C12_DEBUG") != "" && (base.Status == "crash" || len(facts.UnsupportedOps) == 0) {
 			fmt.Printf("DEBUG rejected (%s) rsize=%d mpm=%v\n%s--- stdout\n%s--- stderr\n%s\n", base.Status, c.Rsize, c.Mpm, c.Src, base.Stdout, dumpHead(base.Stderr))
@@ -314,6 +327,9 @@ func prop(c Case) pbt.Outcome {
 			if len(facts.GoValueArgs) > 0 {
 				return known(sigGoValue, f)
 			}
+			if strings.Contains(base.Stdout, "operand out of range") && jumpsPastFullRom(base.Asm[k]) {
+				return known(sigEndJump, f)
+			}
 			return finish(pbt.Outcome{Fail: f})
 		}
 	}
@@ -321,6 +337,11 @@ func prop(c Case) pbt.Outcome {
 	ref, rerr := RefEval(c.Src, c.Rsize, c.InVals, bud)
 	if rerr != nil {
 		lab("sem:not-modelled")
+		why := strings.Fields(rerr.Error())
+		if len(why) > 4 {
+			why = why[:4]
+		}
+		lab("sem:not-modelled:" + strings.Join(why, "-"))
 		return finish(out)
 	}
 	if len(ref.Routines) != len(ld.Procs) {
@@ -338,6 +359,12 @@ func prop(c Case) pbt.Outcome {
 	}
 	if len(facts.MultiReturn) > 0 {
 		lab("class:multiple-returns")
+	}
+	if len(facts.LeakDecl) > 0 {
+		lab("class:shadowing-decl-without-own-map")
+	}
+	if len(facts.DefineIgnored) > 0 {
+		lab("class:define-of-name-in-same-map")
 	}
 	if facts.FallDefault {
 		lab("class:fallthrough-into-default")
@@ -401,6 +428,10 @@ func prop(c Case) pbt.Outcome {
 			switch {
 			case len(facts.HoistedIncDec) > 0:
 				return known(sigHoist, f)
+			case len(facts.DefineIgnored) > 0:
+				return known(sigDefIgn, f)
+			case len(facts.LeakDecl) > 0:
+				return known(sigLeak, f)
 			case len(facts.MultiReturn) > 0:
 				return known(sigMultiRet, f)
 			case eqTrue > 0:
@@ -440,6 +471,24 @@ var Props = []*pbt.Entry{
 	pbt.Def("compile_full",
 		"Go-subset programs over the whole accepted grammar: additionally RAM variables (r2m/m2r), == everywhere, switch/fallthrough, -mpm with `go f()` workers, channel producers and by-value goroutine arguments"+ruleCommon,
 		genCase(GenOpts{Faithful: false}), prop),
+}
+
+// jumpsPastFullRom: the listing has exactly 2^k lines and a jump whose target is the address one past the
+// last line (a break out of the last loop, a return): the ROM the compiler asks for (k address bits) cannot
+// express that target.
+func jumpsPastFullRom(asm string) bool {
+	lines := asmLines(asm)
+	n := len(lines)
+	if n == 0 || n&(n-1) != 0 {
+		return false
+	}
+	for _, l := range lines {
+		f := strings.Fields(l)
+		if len(f) >= 2 && (f[0] == "j" || f[0] == "jz" || f[0] == "je") && f[len(f)-1] == fmt.Sprint(n) {
+			return true
+		}
+	}
+	return false
 }
 
 func sharedLinks(js []byte) string {
@@ -652,6 +701,67 @@ func main() {
 `}},
 }
 
+func init() {
+	knownCases = append(knownCases, []struct {
+		file, entry, sig string
+		c                Case
+	}{
+		// 8 lines of assembly, the break is "j 8": three address bits cannot say 8
+		{"jump-past-last-rom-address", "compile_faithful", sigEndJump, Case{Rsize: 8, Plans: manyPlans(3), Src: hdr + `func main() {
+	var out0 bondgo.Output
+	var reg_a uint8
+	out0 = bondgo.Make(bondgo.Output, 1)
+	for {
+		reg_a++
+		bondgo.IOWrite(out0, reg_a)
+		if true {
+			break
+		}
+	}
+}
+`}},
+		{"declaration-outlives-case-clause", "compile_faithful", sigLeak, Case{Rsize: 8, Plans: manyPlans(3), Src: hdr + `func main() {
+	var out0 bondgo.Output
+	var reg_x uint8
+	var reg_y uint8
+	out0 = bondgo.Make(bondgo.Output, 1)
+	reg_x = 5
+	if true {
+		switch reg_y {
+		default:
+			var reg_x uint8
+			reg_x = 9
+			reg_y = reg_y + reg_x
+		}
+		reg_y = reg_y + reg_x
+	}
+	for {
+		bondgo.IOWrite(out0, reg_x)
+		bondgo.IOWrite(out0, reg_y)
+		reg_y++
+	}
+}
+`}},
+		{"define-of-existing-name-dropped", "compile_faithful", sigDefIgn, Case{Rsize: 8, Plans: manyPlans(3), Src: hdr + `func main() {
+	var out0 bondgo.Output
+	var reg_x uint8
+	var reg_y uint8
+	out0 = bondgo.Make(bondgo.Output, 1)
+	reg_x = 5
+	for reg_x := 3; ; reg_x++ {
+		reg_y = reg_y + reg_x
+		break
+	}
+	for {
+		bondgo.IOWrite(out0, reg_x)
+		bondgo.IOWrite(out0, reg_y)
+		reg_y++
+	}
+}
+`}},
+	}...)
+}
+
 func TestWriteKnown(t *testing.T) {
 	dir := os.Getenv("VERIF_C12_WRITE_KNOWN")
 	if dir == "" {
@@ -661,6 +771,9 @@ func TestWriteKnown(t *testing.T) {
 	t.Cleanup(CleanupWork)
 	_ = os.MkdirAll(dir, 0o755)
 	for _, k := range knownCases {
+		if !openFindings[k.sig] {
+			continue // repaired in /repo: its replay lives outside known/ and must pass
+		}
 		k.c.Strict = true
 		k.c.InVals = make([]uint64, 16)
 		out := pbt.Guard(func() pbt.Outcome { return prop(k.c) })
@@ -799,5 +912,65 @@ func TestSurvey(t *testing.T) {
 	sort.Strings(ks)
 	for _, k := range ks {
 		fmt.Printf("SURVEY %-60s %d\n", k, counts[k])
+	}
+}
+
+// TestRefScoping pins Go's block scoping in the reference: the innermost declaration wins for reads and
+// writes, the outer variable is untouched and visible again after the inner scope.
+func TestRefScoping(t *testing.T) {
+	src := hdr + `func main() {
+	var out0 bondgo.Output
+	var reg_x uint8
+	var reg_y uint8
+	out0 = bondgo.Make(bondgo.Output, 1)
+	reg_x = 5
+	for {
+		var reg_x uint8
+		reg_x = 9
+		reg_y = reg_y + reg_x
+		break
+	}
+	if true {
+		reg_x := reg_x + 1
+		reg_x++
+		reg_y = reg_y + reg_x
+	}
+	switch reg_y {
+	default:
+		var reg_x uint8
+		reg_x = 2
+		reg_y = reg_y + reg_x
+	}
+	for reg_x := 3; ; reg_x++ {
+		reg_y = reg_y + reg_x
+		break
+	}
+	for {
+		bondgo.IOWrite(out0, reg_x)
+		bondgo.IOWrite(out0, reg_y)
+		reg_y++
+	}
+}
+`
+	r, err := RefEval(src, 8, make([]uint64, 16), refBudget{MaxEvals: 4000, MaxWrites: 6})
+	if err != nil {
+		t.Fatal(err)
+	}
+	got := r.Routines[0].Streams[0]
+	exp := []uint64{5, 21, 5, 22, 5, 23} // y = 9 + 7 + 2 + 3
+	if fmt.Sprint(got) != fmt.Sprint(exp) {
+		t.Errorf("stream %v, expected %v", got, exp)
+	}
+	f, err := StaticFacts(src)
+	if err != nil {
+		t.Fatal(err)
+	}
+	for _, l := range []string{"shadowing", "shadow-assign-inside", "shadow-read-after", "shadow-read-inside", "define-of-name-in-same-map"} {
+		if !f.Labels[l] {
+			t.Errorf("label %s missing: %v", l, f.Labels)
+		}
+	}
+	if f.Shadowing != 4 {
+		t.Errorf("shadowing declarations %d, expected 4", f.Shadowing)
 	}
 }
